@@ -66,14 +66,14 @@ def run(tier, seed):
         groups.setdefault((l["op"], l["kind"], fmt_str(l["fa"]), fmt_str(l["fb"])), []).append(i)
     tasks = []
     for gi, (_, idxs) in enumerate(sorted(groups.items())):
-        tasks.append({"id": str(gi), "op": "operator_batch",
+        tasks.append({"id": str(gi), "op": "operator_batch", "cap": 1 + gi % 2,
                       "cases": [{"cid": i, "op": lines[i]["op"], "left": operand(lines[i], "a"), "right": operand(lines[i], "b")}
                                 for i in idxs]})
     # merge small tasks to amortise process start-up
     merged, cur = [], None
     for t in tasks:
         if cur is None or len(cur["cases"]) > 60:
-            cur = {"id": str(len(merged)), "op": "operator_batch", "cases": []}
+            cur = {"id": str(len(merged)), "op": "operator_batch", "cases": [], "cap": 1 + len(merged) % 2}
             merged.append(cur)
         cur["cases"] += t["cases"]
     nat = Pool().run(merged)
